@@ -63,7 +63,8 @@ def head(n):
         if kind == 'name':
             name = ('X' if STYLE['cap'] else 'x') + site
         elif kind == 'class':
-            parts += '.' + site
+            # a start value followed by `/digit` is a fraction-like class name (w-1/4): the slash belongs to the literal, not to the element
+            parts += '.' + site + ('/4' if base is not None and tag % 3 == 0 else '')
         elif kind == 'id':
             ids += '#' + site       # ids are written first: a `$` run directly followed by `#` would spell the `$#` placeholder
         elif kind == 'attr':
